@@ -218,6 +218,20 @@ pub mod restrictions {
             }
         }
 
+        // an integer type can be enumerated as well (status codes); the members are compared as numbers: 7 is one
+        // of "007" and "+7"
+        if let Some(enumeration) = restrictions.enumeration.as_ref() {
+            let is_member = enumeration.iter().any(|member| {
+                let digits = member.strip_prefix(['+', '-']).unwrap_or(member);
+                !digits.is_empty()
+                    && digits.bytes().all(|b| b.is_ascii_digit())
+                    && member.strip_prefix('+').unwrap_or(member).parse::<i128>() == Ok(value)
+            });
+            if !is_member {
+                return Err(SoapError::Restriction("enumeration restriction not met".to_string()));
+            }
+        }
+
         Ok(())
     }
 
